@@ -23,7 +23,10 @@ F_NEGZERO = "F"        # float -0.0 is "empty" for generated code (float compare
 S_TRUE_PARSED = "S"    # object in the position of an unmasked empty-struct field: generated code skips it by size, onthefly parses it
 T_TUPLE_COUNT = "T"    # ReadTL2 of a dynamic-size tuple: generated code rejects count > remaining bytes, onthefly allocates count elements
 N_NO_SANITY = "N"      # ReadTL1: generated code (--checkLengthSanity) rejects a count n with n*4 > remaining bytes, onthefly has no such check
-ALL = frozenset("ABCDFSTN")
+# A, B, D and T were genuine defects of the interpreter repaired in /repo (fix: commits 360642cb, 416c533f, 92d22a53, 1a52b76f: see known_findings.json `fixed`);
+# their switches stay in the model so that the repaired behaviour is what is predicted, but they are no longer part of ALL:
+# if one of them returns, the disagreement is not reproduced by the model and is reported as a violation.
+ALL = frozenset("CFSN")
 
 RUNAWAY = 1 << 30      # elements; from here on onthefly is predicted to die (n interface values + n objects: tens of GB)
 QUIET = 4096           # up to here an allocation "out of thin air" is harmless; in between the outcome depends on the machine:
@@ -675,7 +678,7 @@ def probes(sc, items):
                 lc = "codec.r2 %s %d %s %s" % (sc.sid, inst["idx"], inst["tlname"], _hx(m.enc2(inst["idx"], vc, False)))
             except Unsupported:
                 continue
-            if predict(sc, lt, ()) == "err eof" and predict(sc, lt, ALL) == "TOOBIG:ReadTL2" and \
+            if predict(sc, lt, ()) == "err eof" and predict(sc, lt, ALL) in ("err eof", "TOOBIG:ReadTL2") and \
                     (predict(sc, lc, ()) or "").endswith("w1b=werr") and predict(sc, lc, ALL) == "TOOBIG:WriteTL1":
                 return [lt, lc]
     return []
